@@ -399,7 +399,10 @@ let dump_doc (idx : Stdlib.String.t) (flags : Stdlib.String.t) (text : n list) (
     done;
     pr "%s OI %d\n" idx !cnt
   end;
-  if has 'g' then pr "%s G ok\n" idx
+  if has 'g' then begin
+    let (lines, _maxh) = get (debug_document d) in
+    pr "%s G ok %d\n" idx (int_of_n lines)
+  end
 
 let run_case idx flags dtd limit (text : n list) (out : Buffer.t) =
   let opt = { allow_dtd = dtd; nodes_limit = n_of_int limit } in
@@ -412,7 +415,7 @@ let run_case idx flags dtd limit (text : n list) (out : Buffer.t) =
      with Model_stop s -> Buffer.add_buffer out b; Printf.bprintf out "%s R mstop %s\n" idx s)
   | Err e ->
     Printf.bprintf out "%s R err\n%s %s\n" idx idx (error_line e);
-    if String.contains flags 'g' then Printf.bprintf out "%s G ok\n" idx
+    if String.contains flags 'g' then Printf.bprintf out "%s G ok 0\n" idx
   | Panic s -> Printf.bprintf out "%s R mpanic %s\n" idx (site_name s)
   | OutOfFuel -> Printf.bprintf out "%s R mfuel\n" idx
 
